@@ -6,7 +6,7 @@ CONSTANTS MaxWrites, Statuses, WriteFaultAt
 VARIABLES sc, done
 vars == <<sc, done>>
 Sources == SUBSET {"config", "delta", "bat", "pager"}
-Base == [stay : {FALSE}, big : {FALSE}, how : {"files"}, bare : {FALSE}, wf : {"none"}, wat : {0}]
+Base == [stay : {FALSE}, big : {FALSE}, how : {"files"}, bare : {FALSE}, wf : {"none"}, wat : {0}, noisy : {FALSE}]
 Join(S, T) == {s @@ t : s \in S, t \in T}
 Scenarios ==
   Join([mode : {"stdin"}, out : {"stdout"}, quit : 0..MaxWrites, status : {0}, src : {{}}, pagerval : {"envpager"}], Base)
@@ -16,22 +16,25 @@ Scenarios ==
   \cup Join([mode : {"diff", "wrap"}, out : {"pager"}, quit : {0, 10}, status : Statuses, src : {{"config"}, {}}, pagerval : {"envpager"}], Base)
   \* a pager that stops reading but stays alive, with more output than the pipe holds / that fits into it
   \cup [mode : {"stdin", "wrap"}, out : {"pager"}, quit : {1, 10, 5000}, status : {0}, src : {{}, {"config"}, {"pager"}},
-        pagerval : {"envpager"}, stay : {TRUE}, big : BOOLEAN, how : {"files"}, bare : {FALSE}, wf : {"none"}, wat : {0}]
+        pagerval : {"envpager"}, stay : {TRUE}, big : BOOLEAN, how : {"files"}, bare : {FALSE}, wf : {"none"}, wat : {0}, noisy : {FALSE}]
   \* informational output with a reader that goes away
   \cup Join([mode : {"showconfig", "version"}, out : {"stdout"}, quit : 0..3, status : {0}, src : {{}}, pagerval : {"envpager"}], Base)
   \* two-file mode: the same path twice; an option the differ rejects
   \cup [mode : {"diff"}, out : {"stdout", "pager"}, quit : {0}, status : {0, 2}, src : {{}}, pagerval : {"envpager"},
-        stay : {FALSE}, big : {FALSE}, how : {"samepath", "badopt"}, bare : {FALSE}, wf : {"none"}, wat : {0}]
+        stay : {FALSE}, big : {FALSE}, how : {"samepath", "badopt"}, bare : {FALSE}, wf : {"none"}, wat : {0}, noisy : {FALSE}]
   \* an explicitly configured bare `less`
   \cup [mode : {"stdin"}, out : {"pager"}, quit : {0, 10}, status : {0}, src : {{"config"}, {"delta"}, {"config", "delta", "pager"}, {"delta", "bat"}},
-        pagerval : {"envpager", "less -F"}, stay : {FALSE}, big : {FALSE}, how : {"files"}, bare : {TRUE}, wf : {"none"}, wat : {0}]
+        pagerval : {"envpager", "less -F"}, stay : {FALSE}, big : {FALSE}, how : {"files"}, bare : {TRUE}, wf : {"none"}, wat : {0}, noisy : {FALSE}]
   \* the consumer stays, but a write call is disturbed: it takes only a part of what it was given ("short": once at the
   \* wat-th call, "shortall": from then on every time), or fails with EINTR before taking anything ("eintr").  Nothing may
   \* be lost, nothing may be reported.
   \cup [mode : {"stdin"}, out : {"stdout", "pager"}, quit : {0}, status : {0}, src : {{}}, pagerval : {"envpager"},
-        stay : {FALSE}, big : BOOLEAN, how : {"files"}, bare : {FALSE}, wf : {"short", "shortall", "eintr"}, wat : WriteFaultAt]
+        stay : {FALSE}, big : BOOLEAN, how : {"files"}, bare : {FALSE}, wf : {"short", "shortall", "eintr"}, wat : WriteFaultAt, noisy : {FALSE}]
   \cup [mode : {"diff", "wrap"}, out : {"stdout", "pager"}, quit : {0}, status : {1}, src : {{}}, pagerval : {"envpager"},
-        stay : {FALSE}, big : BOOLEAN, how : {"files"}, bare : {FALSE}, wf : {"short", "shortall", "eintr"}, wat : WriteFaultAt]
+        stay : {FALSE}, big : BOOLEAN, how : {"files"}, bare : {FALSE}, wf : {"short", "shortall", "eintr"}, wat : WriteFaultAt, noisy : {FALSE}]
+  \* the program delta starts talks on stderr (a differ with tracing on, a wrapped command that writes 4 000 lines there first)
+  \cup [mode : {"diff", "wrap"}, out : {"stdout", "pager"}, quit : {0}, status : Statuses, src : {{}, {"config"}}, pagerval : {"envpager"},
+        stay : {FALSE}, big : {FALSE}, how : {"files"}, bare : {FALSE}, wf : {"none"}, wat : {0}, noisy : {TRUE}]
 Init == sc \in Scenarios /\ done = FALSE
 Next == ~done /\ done' = TRUE /\ UNCHANGED sc
 Spec == Init /\ [][Next]_vars
@@ -40,5 +43,5 @@ NoQuitNoLoss == (sc.quit = 0 /\ sc.wf # "none") => WantExit(sc) = NormalExit(sc)
 QuitIsQuiet == sc.quit > 0 => WantExit(sc) = 0 /\ WantQuiet(sc)
 Replay == done \/ PrintT(<<"REPLAY", ToJson([mode |-> sc.mode, out |-> sc.out, quit |-> sc.quit, status |-> sc.status,
                                              src |-> [x \in {"config", "delta", "bat", "pager"} |-> x \in sc.src],
-                                             pagerval |-> sc.pagerval, stay |-> sc.stay, big |-> sc.big, how |-> sc.how, bare |-> sc.bare, wf |-> sc.wf, wat |-> sc.wat])>>)
+                                             pagerval |-> sc.pagerval, stay |-> sc.stay, big |-> sc.big, how |-> sc.how, bare |-> sc.bare, wf |-> sc.wf, wat |-> sc.wat, noisy |-> sc.noisy])>>)
 =============================================================================
